@@ -51,6 +51,11 @@ pub enum Op {
     },
     /// brk with an absolute argument (generated as the guest's very first call, before any query)
     BrkAbs { arg: u64 },
+    /// another host action between two guest instructions of a brk program (the guest executes a NOP):
+    /// "late_pipe" / "late_others" - the host installs further built-in handlers with a second handle_syscalls
+    /// call; "prot_rwx" / "prot_rw" - it changes the rights of the heap area, keeping read+write. None of this
+    /// may disturb the heap
+    Host { what: String },
 }
 
 #[derive(Serialize, Deserialize, Clone, Debug, PartialEq)]
@@ -262,6 +267,7 @@ fn gen_brk(r: &mut Rng, thorough: bool, big: bool) -> Sc {
     let w_block = *r.pick(&[0u32, 0, 1, 2]);
     for _ in 0..n_ops {
         match r.weighted(&[2, 6, 8, 6, w_block]) {
+            4 if r.chance(1, 4) => ops.push(Op::Host { what: r.pick(&["late_pipe", "late_others", "prot_rwx", "prot_rw", "late_pipe", "prot_rwx"]).to_string() }),
             4 if r.chance(1, 3) => ops.push(Op::Block { gap: r.below(0x4000), len: *r.pick(&[1u64, 0x10, 0x100, 0x1000]), inside: true }),
             4 => ops.push(Op::Block { gap: *r.pick(&[0u64, 0, 1, 0x10, 0x800, 0x1000, 0x3000]), len: *r.pick(&[1u64, 0x10, 0x100, 0x1000]), inside: false }),
             0 => ops.push(Op::Brk0),
@@ -436,7 +442,7 @@ mod asm {
                     marks.push(a.instructions().len());
                     a.mov(rcx, qword_ptr(rbx + *off as i32))?;
                 }
-                Op::Block { .. } => {
+                Op::Block { .. } | Op::Host { .. } => {
                     marks.push(a.instructions().len());
                     a.nop()?;
                 }
@@ -1003,6 +1009,19 @@ fn run_brk(sc: &Sc, ax: &mut Axecutor, marks: &[u64], _seen: &Rc<RefCell<Vec<(u6
         }
         let rdi = ax.reg_read_64(SR::RDI).unwrap_or(0);
         let rbx = ax.reg_read_64(SR::RBX).unwrap_or(0);
+        if let Op::Host { what } = op {
+            let (hs, _) = ax.verif_brk();
+            let r = match what.as_str() {
+                "late_pipe" => catch(|| ax.handle_syscalls(vec![Syscall::Pipe]).map_err(|e| e.to_string())),
+                "late_others" => catch(|| ax.handle_syscalls(vec![Syscall::ArchPrctl, Syscall::Exit]).map_err(|e| e.to_string())),
+                // (areas are addressed by their start: only when the heap is the one area that starts there)
+                "prot_rwx" if hs != 0 && area_snapshot(ax).iter().filter(|a| a.0 == hs).count() == 1 => catch(|| ax.mem_prot(hs, 7).map_err(|e| e.to_string())),
+                "prot_rw" if hs != 0 && area_snapshot(ax).iter().filter(|a| a.0 == hs).count() == 1 => catch(|| ax.mem_prot(hs, 3).map_err(|e| e.to_string())),
+                _ => Ok(Ok(())),
+            };
+            ctx.event(&format!("host:{what}:{}", matches!(r, Ok(Ok(())))), "");
+            ctx.fault(if what.starts_with("late") { "handlers_installed_midrun" } else { "heap_rights_changed_by_host" });
+        }
         if let Op::Block { gap, len, inside: true } = op {
             let (hs, hl) = ax.verif_brk();
             if hs != 0 && hl > 0 {
